@@ -69,16 +69,18 @@ ASSUMPTIONS = [
     "density-matrix entries; Gaussian-simulator probabilities are sqrt(det) so an absolute "
     "rounding error delta=1e-14 of the determinant allows 1e-9 + min(sqrt(delta), "
     "delta/(2p)) (1e-7 at p=0, 1e-9 for p>1e-5; observed worst error 6e-14)",
+    "thermal (ParentHamiltonian) inputs: 1e-9 + 1e-15*||expm(2H)||_2, because the simulator "
+    "forms inv(1+expm(2H)) whose rounding error was measured as <= 0.9*eps*||expm(2H)||_2",
     "PureFockState.get_particle_detection_probability is only queried below the cutoff "
     "(above it it raises IndexError like its bosonic counterpart; treated as out of domain)",
     "NumPy connector, float64 only (connector independence is C09)",
 ]
 # Fractions of ALL evaluations, including the (mostly trivial) cases Hypothesis executes
-# while shrinking a failure; measured on a quiet tree: 0.36 / 0.13 / 0.50 / 0.14.  The
-# floors leave a factor ~3.5 for shrink-phase evaluations so that a run that found
-# violations still exits 1 and not 2.
-FLOORS = {"jw_string_below": 0.10, "interferometer_3plus_2particles": 0.035,
-          "active_gate": 0.12, "small_cutoff": 0.03}
+# while shrinking a failure; measured on a quiet tree: 0.32 / 0.115 / 0.45 / 0.12.  Runs that
+# find violations were seen to inflate `evaluations` 3.3x through shrinking, so the floors
+# leave a factor ~6: a run that found violations should exit 1, not 2.
+FLOORS = {"jw_string_below": 0.05, "interferometer_3plus_2particles": 0.02,
+          "active_gate": 0.07, "small_cutoff": 0.02}
 
 TOL = 1e-9
 DET_DELTA = 1e-14
@@ -240,9 +242,21 @@ def pf_density_matrix(state, d: int) -> np.ndarray:
     return np.outer(vec, vec.conj())
 
 
-def gtol(p: float) -> float:
+def gtol(p: float, tol: float = TOL) -> float:
     p = max(float(p), 0.0)
-    return TOL + min(math.sqrt(DET_DELTA), DET_DELTA / (2 * p) if p > 0 else 1.0)
+    return tol + min(math.sqrt(DET_DELTA), DET_DELTA / (2 * p) if p > 0 else 1.0)
+
+
+def case_tol(case: dict) -> float:
+    """1e-9 (1 + scale): ParentHamiltonian computes inv(1 + expm(2H)); its rounding error
+    is eps * ||expm(2H)||_2 (measured ratio <= 0.9 over 360 thermal states), so thermal
+    inputs get 1e-9 + 1e-15 ||expm(2H)||_2 (ten times the measured law)."""
+    prep = case["prep"]
+    if prep["kind"] != "parent":
+        return TOL
+    h = quadratic_hamiltonian(case["d"], prep["seed"], prep["scale"], False)
+    w = np.linalg.eigvalsh((h + h.conj().T) / 2)
+    return TOL + 1e-15 * math.exp(2 * float(w.max()))
 
 
 def maxdiff(a, b) -> float:
@@ -254,7 +268,7 @@ def maxdiff(a, b) -> float:
 
 # --------------------------------------------------------------------------- oracles
 
-def check_gaussian_state(G, rho, d, tag):
+def check_gaussian_state(G, rho, d, tag, tol=TOL):
     """Gaussian-simulator state against the reference density matrix."""
     occs = R.occupations(d)
     pref = R.probabilities(rho)
@@ -262,16 +276,16 @@ def check_gaussian_state(G, rho, d, tag):
     cov = np.asarray(G.covariance_matrix)
     if np.iscomplexobj(cov) and np.abs(cov.imag).max() > 0:
         raise Violation(f"C17:{tag}:G:covariance:not-real", "complex covariance matrix")
-    if maxdiff(cov, cref) > TOL:
+    if maxdiff(cov, cref) > tol:
         raise Violation(f"C17:{tag}:G:covariance:ref",
                         f"Gaussian covariance differs from Jordan-Wigner reference by "
                         f"{maxdiff(cov, cref):.3e}")
-    if maxdiff(cov, -cov.T) > TOL:
+    if maxdiff(cov, -cov.T) > tol:
         raise Violation(f"C17:{tag}:G:covariance:skew", "covariance not skew-symmetric")
     pg = np.array([float(np.real(G.get_particle_detection_probability(np.array(o))))
                    for o in occs])
     for o, a, b in zip(occs, pg, pref):
-        if abs(a - b) > gtol(b):
+        if abs(a - b) > gtol(b, tol):
             raise Violation(f"C17:{tag}:G:detection-probability:ref",
                             f"p{o}: Gaussian {a!r} reference {b!r}")
     fp = np.real(np.asarray(G.fock_probabilities, dtype=complex))
@@ -280,15 +294,16 @@ def check_gaussian_state(G, rho, d, tag):
         raise Violation(f"C17:{tag}:G:fock_probabilities:order",
                         "fock_probabilities is not get_particle_detection_probability in "
                         f"lexicographic order (max diff {maxdiff(fp, pg):.3e})")
-    if abs(pg.sum() - 1) > TOL + sum(gtol(b) - TOL for b in pref):
+    if abs(pg.sum() - 1) > (tol if tol == TOL else 2 ** d * tol) + sum(
+            gtol(b, tol) - tol for b in pref):
         raise Violation(f"C17:{tag}:G:probabilities:sum", f"sum = {pg.sum()!r}")
     par = complex(G.get_parity_operator_expectation_value())
     pr = R.parity(rho, d)
-    if abs(par - pr) > TOL:
+    if abs(par - pr) > (tol if tol == TOL else 2 * d * tol):
         raise Violation(f"C17:{tag}:G:parity:ref", f"parity {par!r}, reference {pr!r}")
     mean = np.asarray(G.mean_particle_numbers(list(range(d))))
     mref = [sum(p for o, p in zip(occs, pref) if o[m]) for m in range(d)]
-    if maxdiff(mean, np.array(mref)) > TOL:
+    if maxdiff(mean, np.array(mref)) > tol:
         raise Violation(f"C17:{tag}:G:mean_particle_numbers:ref",
                         f"{mean.tolist()} vs {mref}")
     return pg, cov
@@ -617,12 +632,15 @@ def prop_gaussian(case, ctx):
         cl.append("hamiltonian_nonascending_modes")
     ctx.case(case, below and float(R.probabilities(rho).max()) < 0.999, cl)
 
+    tol = case_tol(case)
+    if tol > 2 * TOL:
+        ctx.count("thermal_tolerance_widened")
     G = execute("G", case, gates, "gaussian_only")
-    _, cov = check_gaussian_state(G, rho, d, "gaussian_only")
+    _, cov = check_gaussian_state(G, rho, d, "gaussian_only", tol)
     # parity conserved by every gate (thermal inputs: any value in [-1, 1])
     par0 = R.parity(rho0, d)
     parG = complex(G.get_parity_operator_expectation_value())
-    if abs(parG - par0) > TOL:
+    if abs(parG - par0) > (tol if tol == TOL else 2 * d * tol):
         raise Violation("C17:invariant:G:parity",
                         f"parity {parG!r} after the gates, {par0!r} before")
     # GaussianHamiltonian(H) equals the gate it encodes
@@ -638,7 +656,7 @@ def prop_gaussian(case, ctx):
                 if abs(abs(ph) - 1) > 1e-9 or maxdiff(u2, ph * u1) > 1e-9:
                     raise AssertionError(f"encoding of {g} is wrong in the harness")
         G2 = execute("G", case, plain, "gaussian_only:plain")
-        if maxdiff(np.asarray(G2.covariance_matrix), cov) > TOL:
+        if maxdiff(np.asarray(G2.covariance_matrix), cov) > tol:
             raise Violation("C17:hamiltonian-encodes-gate:covariance",
                             "GaussianHamiltonian(H) and the built-in gate it encodes give "
                             f"covariances differing by "
@@ -649,7 +667,7 @@ def prop_gaussian(case, ctx):
         Gp = execute("G", case, gates[:la + 1], "gaussian_only:prefix")
         want = R.number_distribution(np.real(np.asarray(Gp.fock_probabilities)), d)
         got = R.number_distribution(np.real(np.asarray(G.fock_probabilities)), d)
-        if maxdiff(got, want) > TOL + (2 ** d) * math.sqrt(DET_DELTA):
+        if maxdiff(got, want) > 2 ** d * (tol + math.sqrt(DET_DELTA)):
             raise Violation("C17:invariant:G:number-distribution",
                             f"passive gates changed the particle-number distribution: "
                             f"{want.tolist()} -> {got.tolist()}")
@@ -736,7 +754,7 @@ def prop_gdm(case, ctx):
         raise Violation(f"C17:G:density_matrix:raises:{type(e).__name__}", str(e)[:300])
     # lexicographic basis = computational basis of the reference; errors are bimodal on
     # the unchanged tree (<= 1e-13, or >= 1e-4), so the common 1e-9 applies
-    if maxdiff(dm, rho) > TOL:
+    if maxdiff(dm, rho) > case_tol(case):
         raise Violation(B_GDM, f"GaussianState.density_matrix differs from the reference by "
                                f"{maxdiff(dm, rho):.3e} (covariance matrix differs by "
                                f"{maxdiff(np.asarray(G.covariance_matrix), R.covariance(rho, d)):.1e})")
